@@ -68,7 +68,8 @@ where B: pdf::backend::Backend,
 
 pub fn dispatch(mode: &str, f: &[Vec<u8>]) -> Option<R> {
     Some(match mode {
-        "page_query" => {
+        // page_spec: same query; the model side runs the Coq specification object instead of the code model
+        "page_query" | "page_spec" => {
             let nq = dec(fld(f, 1)) as u32;
             if fld(f, 0).first() == Some(&b'c') {
                 match FileOptions::cached().load(fld(f, 2).to_vec()) { Ok(file) => Ok(query(&file, nq, fld(f, 3))), Err(e) => Err(ekind(&e)) }
